@@ -28,6 +28,34 @@ pub struct Case {
     /// destination buffer size, 0 = read_to_end
     pub dst: usize,
     pub mode: Mode,
+    /// `flush()` is called on the encoder after the write calls with these ordinals
+    #[serde(default)]
+    pub flushes: Vec<usize>,
+    /// the underlying writer accepts at most this many bytes per call (0 = everything)
+    #[serde(default)]
+    pub inner_max: usize,
+    /// ordinals of reader calls that fail with `ErrorKind::Interrupted` (nothing consumed)
+    #[serde(default)]
+    pub interrupts: Vec<usize>,
+}
+
+/// Writer that accepts at most `max` bytes per call
+struct ShortWriter {
+    out: Vec<u8>,
+    max: usize,
+    flushes: usize,
+}
+
+impl Write for ShortWriter {
+    fn write(&mut self, buf: &[u8]) -> std::io::Result<usize> {
+        let n = if self.max == 0 { buf.len() } else { buf.len().min(self.max) };
+        self.out.extend_from_slice(&buf[..n]);
+        Ok(n)
+    }
+    fn flush(&mut self) -> std::io::Result<()> {
+        self.flushes += 1;
+        Ok(())
+    }
 }
 
 /// RFC 4648 §4 alphabet, written out independently
@@ -99,6 +127,9 @@ struct SchedReader<'a> {
     sched: &'a [usize],
     calls: usize,
     short_reads: u64,
+    interrupts: &'a [usize],
+    interrupted: u64,
+    sched_skip: usize,
 }
 
 impl Read for SchedReader<'_> {
@@ -106,9 +137,16 @@ impl Read for SchedReader<'_> {
         let want = if self.sched.is_empty() {
             usize::MAX
         } else {
-            self.sched[self.calls % self.sched.len()].max(1)
+            self.sched[(self.calls - self.sched_skip) % self.sched.len()].max(1)
         };
         self.calls += 1;
+        if self.interrupts.contains(&(self.calls - 1)) {
+            // a signal arrived before any byte was transferred: callers are expected to retry
+            self.interrupted += 1;
+            // the schedule is indexed by successful calls only
+            self.sched_skip += 1;
+            return Err(std::io::ErrorKind::Interrupted.into());
+        }
         let n = want.min(buf.len()).min(self.data.len() - self.pos);
         if n < buf.len() && self.pos + n < self.data.len() {
             self.short_reads += 1;
@@ -119,25 +157,44 @@ impl Read for SchedReader<'_> {
     }
 }
 
-fn decode_all(text: &[u8], sched: &[usize], dst: usize, ctx: &mut Ctx) -> std::io::Result<Vec<u8>> {
+fn decode_all(
+    text: &[u8],
+    sched: &[usize],
+    dst: usize,
+    interrupts: &[usize],
+    ctx: &mut Ctx,
+) -> std::io::Result<Vec<u8>> {
     let reader = SchedReader {
         data: text,
         pos: 0,
         sched,
         calls: 0,
         short_reads: 0,
+        interrupts,
+        interrupted: 0,
+        sched_skip: 0,
     };
     let mut decoder = Base64Decoder::new(reader);
     let mut out = Vec::new();
     if dst == 0 {
+        // read_to_end retries `Interrupted` itself, as every std consumer does
         decoder.read_to_end(&mut out)?;
         ctx.feat("decode.read_to_end");
     } else {
         let mut buf = vec![0u8; dst];
         // logical bound: every read either produces bytes or ends the stream
         let mut steps = 0usize;
+        let mut retries = 0usize;
         loop {
-            let n = decoder.read(&mut buf)?;
+            let n = match decoder.read(&mut buf) {
+                Ok(n) => n,
+                // a decoder may hand `Interrupted` on to its caller, who then retries (std convention)
+                Err(e) if e.kind() == std::io::ErrorKind::Interrupted && retries < interrupts.len() => {
+                    retries += 1;
+                    continue;
+                }
+                Err(e) => return Err(e),
+            };
             if n == 0 {
                 break;
             }
@@ -227,12 +284,33 @@ impl Prop for C14 {
             1 => Mode::Garbage,
             _ => Mode::RoundTrip,
         };
+        // flush() between write calls, a writer that takes few bytes per call, and a reader that is
+        // interrupted by signals: all legitimate behaviours of the io traits the codec is written against
+        let flushes = match rng.below(4) {
+            0 => (0..rng.range(1, 4)).map(|_| rng.below(writes.len().max(1))).collect(),
+            1 if rng.bool() => (0..writes.len()).collect(),
+            _ => vec![],
+        };
+        let inner_max = match rng.below(5) {
+            0 => 1,
+            1 => rng.range(2, 7),
+            _ => 0,
+        };
+        let text_len = len.div_ceil(3) * 4;
+        let interrupts = match rng.below(4) {
+            0 => (0..rng.range(1, 4)).map(|_| rng.below(text_len.max(1) + 2)).collect(),
+            1 => (0..rng.range(1, 6)).map(|_| rng.below(12)).collect(),
+            _ => vec![],
+        };
         Case {
             data,
             writes,
             sched,
             dst,
             mode,
+            flushes,
+            inner_max,
+            interrupts,
         }
     }
 
@@ -241,9 +319,14 @@ impl Prop for C14 {
             Mode::RoundTrip => {
                 let expected = ref_encode(&case.data);
                 // encode under the write partition
-                let mut enc = Base64Encoder::new(Vec::new());
+                let mut enc = Base64Encoder::new(ShortWriter {
+                    out: Vec::new(),
+                    max: case.inner_max,
+                    flushes: 0,
+                });
                 let mut pos = 0;
-                for w in case.writes.iter() {
+                let mut mid_group_flush = false;
+                for (ordinal, w) in case.writes.iter().enumerate() {
                     let end = (pos + w).min(case.data.len());
                     let mut chunk = &case.data[pos..end];
                     // honour the Write contract: short writes are retried
@@ -259,6 +342,11 @@ impl Prop for C14 {
                         ensure!(guard <= case.data.len() + 1, "enc-no-progress", "encoder write loop");
                     }
                     pos = end;
+                    if case.flushes.contains(&ordinal) {
+                        enc.flush()
+                            .map_err(|e| Fail::new("enc-io-error", format!("flush: {e}")))?;
+                        mid_group_flush |= pos % 3 != 0 && pos < case.data.len();
+                    }
                 }
                 if pos < case.data.len() {
                     enc.write_all(&case.data[pos..])
@@ -266,43 +354,55 @@ impl Prop for C14 {
                 }
                 let got = enc
                     .finish()
-                    .map_err(|e| Fail::new("enc-io-error", format!("{e}")))?;
+                    .map_err(|e| Fail::new("enc-io-error", format!("{e}")))?
+                    .out;
+                ctx.feat_if(mid_group_flush, "enc.flush-inside-group");
+                ctx.feat_if(case.inner_max > 0 && !case.data.is_empty(), "enc.inner-short-writes");
                 ensure!(
                     got == expected,
                     format!("enc-mismatch:len%3={}", case.data.len() % 3),
-                    "encoder output differs from RFC 4648: data_len={} writes={:?} got={:?} expected={:?}",
+                    "encoder output differs from RFC 4648: data_len={} writes={:?} flushes={:?} inner_max={} got={:?} expected={:?}",
                     case.data.len(),
                     &case.writes[..case.writes.len().min(12)],
+                    &case.flushes[..case.flushes.len().min(12)],
+                    case.inner_max,
                     String::from_utf8_lossy(&got[got.len().saturating_sub(12)..]),
                     String::from_utf8_lossy(&expected[expected.len().saturating_sub(12)..])
                 );
                 ctx.feat(&format!("enc.len%3={}", case.data.len() % 3));
                 ctx.feat_if(case.writes.len() > 1, "enc.multi-write");
                 // decode the *reference* text so a wrong encoder cannot mask a wrong decoder
-                let back = decode_all(&expected, &case.sched, case.dst, ctx).map_err(|e| {
+                let back = decode_all(&expected, &case.sched, case.dst, &case.interrupts, ctx).map_err(|e| {
                     Fail::new(
                         "dec-error-on-valid",
                         format!(
-                            "decoder reported error on valid text: {e}; text_len={} sched={:?} dst={}",
+                            "decoder reported error on valid text: {e}; text_len={} sched={:?} dst={} interrupts={:?}",
                             expected.len(),
                             case.sched,
-                            case.dst
+                            case.dst,
+                            case.interrupts
                         ),
                     )
                 })?;
                 ensure!(
                     back == case.data,
                     "dec-mismatch",
-                    "decoded bytes differ: text_len={} sched={:?} dst={} got_len={} want_len={}",
+                    "decoded bytes differ: text_len={} sched={:?} dst={} interrupts={:?} got_len={} want_len={}",
                     expected.len(),
                     case.sched,
                     case.dst,
+                    case.interrupts,
                     back.len(),
                     case.data.len()
                 );
                 let short = case.sched.iter().any(|s| *s < 4);
                 ctx.feat_if(short && !case.data.is_empty(), "dec.short-reads");
                 ctx.feat_if(case.dst == 1, "dec.dst=1");
+                // an interruption right after a short read that ended inside a 4-character group
+                ctx.feat_if(
+                    short && case.interrupts.iter().any(|i| *i > 0 && *i < expected.len()),
+                    "dec.interrupted-inside-group",
+                );
                 ctx.feat_if(case.data.len() > 48, "dec.beyond-internal-buffer");
                 Ok(())
             }
@@ -315,7 +415,7 @@ impl Prop for C14 {
                 text.truncate(text.len() - cut);
                 debug_assert!(text.len() % 4 != 0);
                 ctx.feat("dec.truncated");
-                match decode_all(&text, &case.sched, case.dst, ctx) {
+                match decode_all(&text, &case.sched, case.dst, &case.interrupts, ctx) {
                     Err(_) => Ok(()),
                     Ok(out) => fail!(
                         "dec-truncated-accepted",
@@ -330,7 +430,7 @@ impl Prop for C14 {
             Mode::Garbage => {
                 ctx.feat("dec.garbage");
                 // totality only: Ok or Err, termination bounded inside decode_all
-                match decode_all(&case.data, &case.sched, case.dst, ctx) {
+                match decode_all(&case.data, &case.sched, case.dst, &case.interrupts, ctx) {
                     Ok(out) => {
                         ensure!(
                             out.len() <= case.data.len() / 4 * 3 + 3,
@@ -385,6 +485,21 @@ impl Prop for C14 {
                 ..case.clone()
             });
         }
+        if !case.flushes.is_empty() {
+            out.push(Case { flushes: vec![], ..case.clone() });
+            for f in case.flushes.iter() {
+                out.push(Case { flushes: vec![*f], ..case.clone() });
+            }
+        }
+        if case.inner_max != 0 {
+            out.push(Case { inner_max: 0, ..case.clone() });
+        }
+        if !case.interrupts.is_empty() {
+            out.push(Case { interrupts: vec![], ..case.clone() });
+            for i in case.interrupts.iter() {
+                out.push(Case { interrupts: vec![*i], ..case.clone() });
+            }
+        }
         if case.sched.len() > 1 {
             for s in case.sched.iter() {
                 out.push(Case {
@@ -403,7 +518,7 @@ impl Prop for C14 {
     }
 
     fn rule() -> &'static str {
-        "case = (bytes, write partition, reader read-size schedule, destination buffer size, mode); lengths 0..=200 visited round-robin plus 48/64/4096 boundaries; non-trivial = non-empty data; distinct = hash of the whole case"
+        "case = (bytes, write partition, flush points, inner-writer acceptance limit, reader read-size schedule, reader interruption points, destination buffer size, mode); lengths 0..=200 visited round-robin plus 48/64/4096 boundaries; non-trivial = non-empty data; distinct = hash of the whole case"
     }
 
     fn sample(case: &Case) -> serde_json::Value {
@@ -413,6 +528,9 @@ impl Prop for C14 {
             "writes": &case.writes[..case.writes.len().min(10)],
             "sched": case.sched,
             "dst": case.dst,
+            "flushes": &case.flushes[..case.flushes.len().min(10)],
+            "inner_max": case.inner_max,
+            "interrupts": &case.interrupts[..case.interrupts.len().min(10)],
             "mode": format!("{:?}", case.mode),
         })
     }
